@@ -1,6 +1,7 @@
 import Driver.Common
 import Driver.C08
 import Driver.C04
+import Driver.C04D
 import Driver.C10
 import Driver.C11
 import Driver.C15
@@ -21,7 +22,7 @@ open Lean Driver
 
 def handlers : List (String × Handler) := [
   ("C08", Driver.C08.handle),
-  ("C04", Driver.C04.handle),
+  ("C04", Driver.C04D.handle),
   ("C10", Driver.C10.handle),
   ("C11", Driver.C11.handle),
   ("C15", Driver.C15.handle),
